@@ -66,7 +66,7 @@ Theorem C04_interface_mapping : forall mm mp a,
   measure_of (JIface mm mp a) ICross = (mm, Some a) /\
   measure_of (JIface mm mp a) IMinus = (mm, Some a) /\
   measure_of (JIface mm mp a) IPlus = (mp, Some a).
-Proof. intros. repeat split. Qed.
+Proof. exact interface_mapping_spec. Qed.
 Print Assumptions C04_interface_mapping.
 
 (* ------------------------------------------------------------------------------ (ii) *)
